@@ -28,6 +28,7 @@ func TestC22(t *testing.T) {
 	rapid.Check(t, func(t *rapid.T) {
 		wo := sim.DefaultOpts()
 		h := newHistory(t, wo, coinProfile(), sim.BlockOpts{MaxTxs: 10})
+		defer queryLoad(t, h, 0)()
 		// registry model
 		known := map[uint64]types.Coin{} // every coin ever seen, by id
 		maxIssued := uint64(0)           // largest id issued by a transaction in this run
